@@ -26,6 +26,30 @@ class HarnessSeamMissing(Exception):
     pass
 
 
+class VClock:
+    """Stands in for the `time` module inside proxy.http.handler: time() is real time plus a harness-owned offset
+    (or a fully virtual value once `set` is used)."""
+
+    def __init__(self) -> None:
+        self.offset = 0.0
+        self.virtual: Optional[float] = None
+
+    def time(self) -> float:
+        if self.virtual is not None:
+            return self.virtual
+        return time.time() + self.offset
+
+    def reset(self) -> None:
+        self.offset = 0.0
+        self.virtual = None
+
+    def __getattr__(self, name: str) -> Any:
+        return getattr(time, name)
+
+
+CLOCK = VClock()
+
+
 def install() -> None:
     """Process-wide rebindings (check process only).  Exits 2 upstream if a seam vanished."""
     global _PATCHED
@@ -46,6 +70,7 @@ def install() -> None:
     srv.new_socket_connection = _connect
     tl.DEFAULT_SELECTOR_SELECT_TIMEOUT = 0
     hh.DEFAULT_SELECTOR_SELECT_TIMEOUT = 0
+    hh.time = CLOCK
     logging.disable(logging.CRITICAL)
     import warnings
     warnings.filterwarnings('ignore', category=RuntimeWarning, message='coroutine .* was never awaited')
@@ -81,7 +106,12 @@ class KSock(socket.socket):
         self.fired: List[Tuple[str, int, str]] = []
         self.explicit_close = False
         self.gone_iter: Optional[int] = None      # iteration at which the proxy learnt (EOF / error) that the peer is gone
-        world.ksocks.append(self)
+        if world.weak_ksocks:
+            import weakref
+            # C10: the harness must not keep proxy-side sockets alive; finalisation by refcount is observable
+            world.ksock_refs.append((name, weakref.ref(self)))
+        else:
+            world.ksocks.append(self)
 
     # -- mode emulation: the fd stays non-blocking, the mode the proxy asked for is remembered
     def setblocking(self, flag: bool) -> None:
@@ -171,6 +201,7 @@ class KSock(socket.socket):
     def close(self) -> None:
         if self.fileno() != -1:
             self.explicit_close = True
+            self.world.explicitly_closed.add(self.kname)
             self.world.activity += 1
         self.n['close'] += 1
         super().close()
@@ -387,8 +418,11 @@ class StepQueue:
 
 class World:
     def __init__(self, flags: Any, *, tcp: bool = False, sndbuf: Optional[int] = None, max_iters: int = 20000,
-                 settle: int = 8) -> None:
+                 settle: int = 8, weak_ksocks: bool = False) -> None:
         install()
+        self.weak_ksocks = weak_ksocks
+        self.ksock_refs: List[Tuple[str, Any]] = []
+        self.explicitly_closed: set = set()
         self.flags = flags
         self.tcp = tcp
         self.sndbuf = sndbuf
@@ -420,6 +454,7 @@ class World:
         self.on_iteration: Optional[Callable[['World'], None]] = None
         self.stop_when: Optional[Callable[['World'], bool]] = None
         self.tcp_waited = 0.0
+        self.reaper_period: Optional[int] = None      # iterations between idle-reaper runs (None: the shipped 1000)
         self.at_quiescence: List[Callable[['World'], None]] = []
         self.more_expected: Optional[Callable[[], bool]] = None     # tcp only: is the oracle still waiting for bytes?
 
@@ -573,6 +608,10 @@ class World:
         CURRENT = self
         ex = LocalFdExecutor(iid='1', work_queue=StepQueue(self), flags=self.flags, event_queue=None)
         self.executor = ex
+        if self.reaper_period is not None:
+            # the reaper runs when tick * (select timeout + wait_timeout) >= cleanup_inactive_timeout; with the select
+            # timeout at 0 that is every cleanup_inactive_timeout / wait_timeout iterations
+            ex.cleanup_inactive_timeout = self.reaper_period * ex.wait_timeout
         try:
             with _Watchdog(self):
                 ex.run()
@@ -844,3 +883,75 @@ def install_real_connect() -> None:
         conn = U.new_socket_connection(addr, timeout, source_address)
         return conn._real if isinstance(conn, _PendingSock) else conn
     srv.new_socket_connection = _real
+
+
+# ---------------------------------------------------------------------------------------------
+# remote mode: the real RemoteFdExecutor (work arrives as a descriptor over a real multiprocessing.Pipe with
+# send_handle, exactly as the acceptor dispatches it), stepped from the harness thread.
+
+def _run_remote(self: World) -> World:
+    global CURRENT
+    import asyncio
+    import multiprocessing
+    from multiprocessing.reduction import send_handle
+    from proxy.core.work.fd.remote import RemoteFdExecutor
+    CURRENT = self
+    parent, child = multiprocessing.Pipe()
+    world = self
+    self.remote_sent: List[int] = []
+
+    class Stepped(RemoteFdExecutor):
+        async def _run_once(ex) -> bool:     # type: ignore[override]
+            try:
+                r = world.step()
+            except queue.Empty:
+                r = None
+            if r is False:
+                return True
+            if isinstance(r, tuple):
+                conn, addr = r
+                # what Acceptor._work does for a remote executor
+                parent.send(addr)
+                send_handle(parent, conn.fileno(), os.getpid())
+                world.remote_sent.append(conn.fileno())
+                socket.socket.close(conn)
+            return await super()._run_once()
+
+    loop = asyncio.new_event_loop()
+    asyncio.set_event_loop(loop)
+    ex = Stepped(iid='1', work_queue=child, flags=self.flags, event_queue=None)
+    ex._loop = loop
+    self.executor = ex
+    if self.reaper_period is not None:
+        ex.cleanup_inactive_timeout = self.reaper_period * ex.wait_timeout
+    try:
+        with _Watchdog(self):
+            ex.run()
+    except BaseException as e:
+        self.exceptions.insert(0, ('run', '%s: %s' % (type(e).__name__, e)))
+        if isinstance(e, Hung):
+            self.ended_by_script = False
+    finally:
+        CURRENT = None
+        try:
+            parent.close()
+        except OSError:
+            pass
+        asyncio.set_event_loop(None)
+    return self
+
+
+World.run_remote = _run_remote     # type: ignore[attr-defined]
+
+
+def run_mode(world: World, mode: str, client_name: str = 'client') -> World:
+    if mode == 'local':
+        return world.run_local()
+    if mode == 'remote':
+        return world.run_remote()     # type: ignore[attr-defined]
+    if mode == 'threaded':
+        world.run_threaded(client_name)     # type: ignore[attr-defined]
+        if getattr(world, 'run_returned', False):
+            world.finish_peers()
+        return world
+    raise ValueError(mode)
